@@ -235,6 +235,12 @@ static Input makeInput(char fam, uint64_t seed, int size) {
                   int k = (int) r.below((uint64_t) N_ROBUST_PAIRS); bool sw = r.chance(50);
                   in.a = GEOSGeomFromWKT_r(H, ROBUST_PAIRS[k][sw ? 1 : 0]); in.b = GEOSGeomFromWKT_r(H, ROBUST_PAIRS[k][sw ? 0 : 1]);
                   in.p = 0.001; break; }
+              if (size >= 2 && r.chance(20)) {   // linework with > 100000 chain pairs whose envelopes overlap: reaches the polls of the noder AND of the
+                  // noding validation that OverlayNGRobust runs after floating noding (FastNodingValidator), none of which small inputs reach
+                  int nl = 380 + (int) r.below(120);
+                  in.a = g.parallelDiagonals(nl);
+                  std::vector<GEOSGeometry*> gs; for (int i = 0; i < nl; i++) gs.push_back(g.lineOf({i * 0.001 + 0.0005, 0.0, i * 0.001 + 1.0005, 1.0}));
+                  in.b = GEOSGeom_createCollection_r(H, GEOS_MULTILINESTRING, gs.data(), (unsigned) gs.size()); in.p = 0.001; break; }
               in.a = g.starGrid(m, nv, 0, 0, 0.49); in.b = g.starGrid(m, nv, 0.3 * r.unit(), 0.3 * r.unit(), 0.49);
               in.p = r.chance(50) ? 0.001 : 0.0625; break;
     case 'U': in.a = g.starGrid(m + 1, nv, 0, 0, 0.7 + 0.4 * r.unit(), r.chance(50) ? GEOS_GEOMETRYCOLLECTION : GEOS_MULTIPOLYGON); in.p = 0.001; break;
